@@ -463,13 +463,30 @@ theorem writeSingleSegment_lists (seg : Segment) (sections : List Str) (noload :
   simp only [emitSection_lists]
   rfl
 
-theorem addSegment_lists (seg : Segment) (em : List Str) :
-    addSegment (withLists cx S A Rq T) em seg = addSegment cx em seg := by
-  unfold addSegment
-  simp only [writeSegment_lists]
+/-- the segment list `S` has an emitted member of a class exactly when the document's has. -/
+def SameUse : Prop :=
+  ∀ other : Str, S.any (fun s => decide (s.vramClass = some other) && shouldEmit cx.o s.cond)
+    = cx.d.segments.any (fun s => decide (s.vramClass = some other) && shouldEmit cx.o s.cond)
+
+theorem classPart_lists (hS : SameUse cx S) (seg : Segment) (em : List Str) :
+    classPart (withLists cx S A Rq T) em seg = classPart cx em seg := by
+  have hf : ∀ vc, followedUsed (withLists cx S A Rq T) vc = followedUsed cx vc := by
+    intro vc
+    unfold followedUsed
+    apply List.filter_congr
+    intro other _
+    exact hS other
+  unfold classPart classIntro
+  simp only [hf]
   rfl
 
-theorem addSegments_lists : ∀ (l : List Segment) (em : List Str),
+theorem addSegment_lists (hS : SameUse cx S) (seg : Segment) (em : List Str) :
+    addSegment (withLists cx S A Rq T) em seg = addSegment cx em seg := by
+  unfold addSegment
+  simp only [writeSegment_lists, classPart_lists cx S A Rq T hS]
+  rfl
+
+theorem addSegments_lists (hS : SameUse cx S) : ∀ (l : List Segment) (em : List Str),
     addSegments (withLists cx S A Rq T) em l = addSegments cx em l := by
   intro l
   induction l with
@@ -477,7 +494,7 @@ theorem addSegments_lists : ∀ (l : List Segment) (em : List Str),
   | cons a as ih =>
     intro em
     unfold addSegments
-    rw [addSegment_lists]
+    rw [addSegment_lists cx S A Rq T hS]
     simp only [ih]
 
 theorem addSingleSegment_lists (seg : Segment) :
@@ -487,6 +504,25 @@ theorem addSingleSegment_lists (seg : Segment) :
   rfl
 
 end irrelevant
+
+/-- deleting the excluded segments (and the excluded entries inside the others) does not change
+which classes have an emitted member. -/
+theorem sameUse_drop (cx : Ctx) : SameUse cx ((cx.d.segments.filter fun s => shouldEmit cx.o s.cond).map (dropSeg cx.o)) := by
+  intro other
+  generalize cx.d.segments = l
+  induction l with
+  | nil => rfl
+  | cons a as ih =>
+    by_cases ha : shouldEmit cx.o a.cond = true
+    · simp only [List.filter_cons, ha, if_true, List.map_cons, List.any_cons, ih]
+      have h1 : (dropSeg cx.o a).vramClass = a.vramClass := rfl
+      have h2 : (dropSeg cx.o a).cond = a.cond := rfl
+      rw [h1, h2, ha]
+    · have hf : shouldEmit cx.o a.cond = false := by
+        cases hh : shouldEmit cx.o a.cond
+        · rfl
+        · exact absurd hh ha
+      simp only [List.filter_cons, hf, Bool.false_eq_true, if_false, List.any_cons, Bool.and_false, Bool.false_or, ih]
 
 /-! #### the outputs -/
 
@@ -546,7 +582,7 @@ theorem addAllSegments_drop (d : Document) (o : Opts) (hm : d.settings.singleSeg
   simp only [hd, hm, Bool.false_eq_true, if_false]
   have h1 := addSegments_lists { d := d, o := o } ((d.segments.filter fun s => shouldEmit o s.cond).map (dropSeg o))
     (d.symbolAssignments.filter fun a => shouldEmit o a.cond) (d.requiredSymbols.filter fun a => shouldEmit o a.cond)
-    (d.asserts.filter fun a => shouldEmit o a.cond) ((d.segments.filter fun s => shouldEmit o s.cond).map (dropSeg o)) []
+    (d.asserts.filter fun a => shouldEmit o a.cond) (sameUse_drop { d := d, o := o }) ((d.segments.filter fun s => shouldEmit o s.cond).map (dropSeg o)) []
   have h2 := addSegments_drop { d := d, o := o } d.segments []
   have h3 : addSegments { d := dropDoc o d, o := o } [] (dropDoc o d).segments = addSegments { d := d, o := o } [] d.segments :=
     h1.trans h2
@@ -583,7 +619,8 @@ theorem partialSegment_dropSeg (o : Opts) (folder : Str) (seg : Segment) :
   simp only [dropFiles_newObject]
 
 theorem partialSegments_drop (d : Document) (o : Opts) (vc : Bool) (folder : Str)
-    (S : List Segment) (A : List SymbolAssignment) (Rq : List RequiredSymbol) (T : List AssertEntry) :
+    (S : List Segment) (A : List SymbolAssignment) (Rq : List RequiredSymbol) (T : List AssertEntry)
+    (hS : SameUse { d := d, o := o, refPartial := true, esc := escapePath } S) :
     ∀ (l : List Segment) (em : List Str),
       partialSegments (listsDoc d S A Rq T) o vc folder escapePath em
           ((l.filter fun s => shouldEmit o s.cond).map (dropSeg o))
@@ -606,7 +643,7 @@ theorem partialSegments_drop (d : Document) (o : Opts) (vc : Bool) (folder : Str
           = addSegment { d := d, o := o, refPartial := true, esc := escapePath } em (partialSegment folder a) := by
         intro em
         rw [partialSegment_dropSeg]
-        exact (addSegment_lists { d := d, o := o, refPartial := true, esc := escapePath } S A Rq T _ em).trans
+        exact (addSegment_lists { d := d, o := o, refPartial := true, esc := escapePath } S A Rq T hS _ em).trans
           (addSegment_dropSeg { d := d, o := o, refPartial := true, esc := escapePath } _ em)
       simp only [h1, h2, ih]
       rfl
@@ -634,7 +671,7 @@ theorem no_trace_partial (d : Document) (o : Opts) (vc : Bool) :
     simp only []
     have h := partialSegments_drop d o vc folder ((d.segments.filter fun s => shouldEmit o s.cond).map (dropSeg o))
       (d.symbolAssignments.filter fun a => shouldEmit o a.cond) (d.requiredSymbols.filter fun a => shouldEmit o a.cond)
-      (d.asserts.filter fun a => shouldEmit o a.cond) d.segments []
+      (d.asserts.filter fun a => shouldEmit o a.cond) (sameUse_drop { d := d, o := o, refPartial := true, esc := escapePath }) d.segments []
     have h' : partialSegments (dropDoc o d) o vc folder escapePath [] (dropDoc o d).segments
         = partialSegments d o vc folder escapePath [] d.segments := h
     rw [h']
